@@ -304,7 +304,7 @@ func c17GExplore(t *testing.T, sc c17Scenario, bound int, col *evid.Collector, i
 		col.Add("transitions", int64(len(x.points)))
 		rp := c17Replay{Scenario: sc.Name, Start: sc.Start, Choices: x.choices(), Trace: x.trace, Lane: "G"}
 		where := fmt.Sprintf("[real git] %s from %s, schedule %s", sc.Name, sc.Start, strings.Join(x.trace, " | "))
-		c17Judge(sc, "G", where, rp, names, contents, x.errs, len(baseLog), x.log, x.handle, col)
+		c17Judge(sc, "G", where, rp, names, contents, x.errs, len(baseLog), x.log, x.handle, x.preemptionsBefore(len(x.points)), col)
 		for i := len(prefix); i < len(x.points); i++ {
 			p := x.points[i]
 			cost := x.preemptionsBefore(i)
@@ -359,7 +359,7 @@ func c17GReplay(t *testing.T, sc c17Scenario, r c17Replay, col *evid.Collector) 
 		col.Inc("evaluations")
 		col.Inc("lane_g_schedules")
 		where := fmt.Sprintf("[real git] %s from %s, schedule %s", sc.Name, sc.Start, strings.Join(x.trace, " | "))
-		c17Judge(sc, "G", where, r, names, contents, x.errs, len(baseLog), x.log, x.handle, col)
+		c17Judge(sc, "G", where, r, names, contents, x.errs, len(baseLog), x.log, x.handle, x.preemptionsBefore(len(x.points)), col)
 		os.RemoveAll(x.dir)
 	}
 }
